@@ -2,6 +2,8 @@
 mod verif_kani_datetime {
     use super::*;
     use winnow::stream::ContainsToken;
+    #[allow(unused_imports)]
+    use winnow::stream::Stream as _VerifStream;
     include!(concat!(env!("TOML_VERIF_KANI"), "/spec/oracles.rs"));
 
     #[kani::proof]
@@ -18,5 +20,129 @@ mod verif_kani_datetime {
         assert!(DIGIT.contains_token(b) == o_class::digit(b));
         kani::cover!(DIGIT.contains_token(b));
         kani::cover!(!DIGIT.contains_token(b));
+    }
+
+    // ------------------------------------------------------------------ K2: 2/4-digit field parsers
+    fn stub_format(_args: core::fmt::Arguments<'_>) -> String {
+        String::new()
+    }
+
+    fn input_of(bytes: &[u8]) -> Option<Input<'_>> {
+        match core::str::from_utf8(bytes) {
+            Ok(s) => Some(new_input(s)),
+            Err(_) => None,
+        }
+    }
+
+    /// Ok(v) <=> both bytes are digits and `ok(value)`; v == value; exactly two bytes consumed
+    fn two_digit_field(
+        parser: fn(&mut Input<'_>) -> ModalResult<u8>,
+        ok: fn(u8) -> bool,
+    ) {
+        let buf: [u8; 3] = kani::any();
+        let mut input = match input_of(&buf) {
+            Some(i) => i,
+            None => return,
+        };
+        let r = parser(&mut input);
+        let want = match o_date::two(buf[0], buf[1]) {
+            Some(v) if ok(v) => Some(v),
+            _ => None,
+        };
+        match (&r, want) {
+            (Ok(v), Some(w)) => {
+                assert!(*v == w, "field value differs from the digits");
+                assert!(input.eof_offset() == 1, "field consumed the wrong number of bytes");
+            }
+            (Err(_), None) => {}
+            (Ok(_), None) => assert!(false, "field accepts a value outside its range or a non-digit"),
+            (Err(_), Some(_)) => assert!(false, "field rejects a value inside its range"),
+        }
+        kani::cover!(r.is_ok());
+        kani::cover!(r.is_err());
+        core::mem::forget(r);
+    }
+
+    #[kani::proof]
+    #[kani::unwind(8)]
+    #[kani::stub(alloc::fmt::format, stub_format)]
+    fn k2_date_month() { two_digit_field(date_month, |v| (1..=12).contains(&v)); }
+
+    #[kani::proof]
+    #[kani::unwind(8)]
+    #[kani::stub(alloc::fmt::format, stub_format)]
+    fn k2_date_mday() { two_digit_field(date_mday, |v| (1..=31).contains(&v)); }
+
+    #[kani::proof]
+    #[kani::unwind(8)]
+    #[kani::stub(alloc::fmt::format, stub_format)]
+    fn k2_time_hour() { two_digit_field(time_hour, |v| v <= 23); }
+
+    #[kani::proof]
+    #[kani::unwind(8)]
+    #[kani::stub(alloc::fmt::format, stub_format)]
+    fn k2_time_minute() { two_digit_field(time_minute, |v| v <= 59); }
+
+    #[kani::proof]
+    #[kani::unwind(8)]
+    #[kani::stub(alloc::fmt::format, stub_format)]
+    fn k2_time_second() { two_digit_field(time_second, |v| v <= 60); }
+
+    #[kani::proof]
+    #[kani::unwind(10)]
+    #[kani::stub(alloc::fmt::format, stub_format)]
+    fn k2_date_fullyear() {
+        let buf: [u8; 5] = kani::any();
+        let mut input = match input_of(&buf) {
+            Some(i) => i,
+            None => return,
+        };
+        let r = date_fullyear(&mut input);
+        let want = o_date::four(buf[0], buf[1], buf[2], buf[3]);
+        match (&r, want) {
+            (Ok(v), Some(w)) => {
+                assert!(*v == w, "year differs from the digits");
+                assert!(input.eof_offset() == 1, "year consumed the wrong number of bytes");
+            }
+            (Err(_), None) => {}
+            (Ok(_), None) => assert!(false, "year accepts non-digits"),
+            (Err(_), Some(_)) => assert!(false, "year rejects four digits"),
+        }
+        kani::cover!(r.is_ok());
+        kani::cover!(r.is_err());
+        core::mem::forget(r);
+    }
+
+    // full-date on every well-shaped `dddd-dd-dd` (10^8 strings, built from symbolic numbers):
+    // Ok <=> O-date valid_date, fields equal the digits.  The calendar rule in situ.
+    #[kani::proof]
+    #[kani::unwind(14)]
+    #[kani::stub(alloc::fmt::format, stub_format)]
+    fn k2_full_date_shaped() {
+        let y: u16 = kani::any();
+        let m: u8 = kani::any();
+        let d: u8 = kani::any();
+        kani::assume(y <= 9999 && m <= 99 && d <= 99);
+        let buf: [u8; 11] = [
+            b'0' + (y / 1000) as u8, b'0' + (y / 100 % 10) as u8, b'0' + (y / 10 % 10) as u8, b'0' + (y % 10) as u8,
+            b'-', b'0' + m / 10, b'0' + m % 10, b'-', b'0' + d / 10, b'0' + d % 10, b' ',
+        ];
+        let mut input = match input_of(&buf) {
+            Some(i) => i,
+            None => return,
+        };
+        let r = full_date(&mut input);
+        let want = o_date::valid_date(y, m, d);
+        match &r {
+            Ok(date) => {
+                assert!(want, "full-date accepts a date that is not on the calendar");
+                assert!(date.year == y && date.month == m && date.day == d, "full-date fields differ from the digits");
+                assert!(input.eof_offset() == 1, "full-date consumed the wrong number of bytes");
+            }
+            Err(_) => assert!(!want, "full-date rejects a calendar date"),
+        }
+        kani::cover!(r.is_ok());
+        kani::cover!(r.is_err());
+        core::mem::forget(r);
     }
 }
